@@ -151,6 +151,27 @@ pub fn meta_view(meta: &SecretMeta) -> Value {
 
 /// Deep projection of the secret value (all fields, user data).
 pub fn secret_view(secret: &Secret) -> Value {
-    let v = serde_json::to_value(secret).expect("secret json");
+    let mut v = serde_json::to_value(secret).expect("secret json");
+    sort_tags(&mut v);
     canon_json(&v)
+}
+
+/// Tags are a set: their order in the JSON form (also inside the meta data
+/// of custom fields) is not significant.
+fn sort_tags(v: &mut Value) {
+    match v {
+        Value::Object(m) => {
+            for (k, x) in m.iter_mut() {
+                if k == "tags" {
+                    if let Value::Array(a) = x {
+                        a.sort_by(|a, b| a.to_string().cmp(&b.to_string()));
+                    }
+                } else {
+                    sort_tags(x);
+                }
+            }
+        }
+        Value::Array(a) => a.iter_mut().for_each(sort_tags),
+        _ => {}
+    }
 }
